@@ -75,7 +75,7 @@ struct RefsWorld : World {
 	const char *const *faultnames() const override { return FAULTS; }
 	const char *components_json() const override {
 		return "{\"real\":[\"mpt_refcount_raise/lower\",\"C++ refcount wrapper\",\"mpt_data_converter(TypeMetaRef) (assignment of a held reference through conversion)\",\"mpt_meta_reference_traits in typed arrays (set, copy on detach, release)\","
-		       "\"C++ reference<T> copy/assign/detach\",\"_mpt_buffer_alloc vtable addref/unref + mpt_array_clone\",\"mpt_reply_deferrable context\",\"mpt_rawdata_create (mptplot)\",\"mpt_stream_input (destruction observed as close of its simulated descriptor)\",\"C++ metatype::generic\"],"
+		       "\"C++ reference<T> copy/assign/detach\",\"_mpt_buffer_alloc vtable addref/unref + mpt_array_clone\",\"mpt_reply_deferrable context\",\"mpt_rawdata_create (mptplot)\",\"mpt_stream_input (destruction observed as close of its simulated descriptor)\",\"C++ metatype::generic\",\"C++ plot objects: reference<T>::type of layout, layout::graph, graph::world, graph::axis, cycle; graphic::add_layout/remove_layout, item_group::append/clone, layout::bind, graph::bind/add_world/add_axis/cycle/set_cycle/clone, graphic::mapping set_cycle/set_cycles/get_cycles/clear_cycles/clear, mpt::add_items\"],"
 		       "\"stub\":[\"harness metatype objects counting addref/unref, refusing a reference when the plan says so\",\"allocator (ledger + n-th allocation fails)\",\"holder-count reference model\"]}";
 	}
 	RefsWorld() {
